@@ -85,11 +85,13 @@ func errCode(err error) int {
 var goodNames = []string{"a", "b", "c", "abc", "code", "method", "job", "x_1", "_x", "x__y", "A", "zz", "le", "quantile",
 	"0abc", "a b", "a.b", "naïve", "日本", "\U0001F600", "a\x00", "l", "lf", "q", "é", "_", "x_",
 	// legal under UTF-8 validation although they look like internal markers / unusual first characters
-	"$x", "$", "$region", "$a", "$le", " x", ".", "-", "a$", "#", "{", "=", "\"", "\\", "ÿ"}
+	"\uFFFD", "a\uFFFD", "\uFFFDz", "$x", "$", "$region", "$a", "$le", " x", ".", "-", "a$", "#", "{", "=", "\"", "\\", "ÿ"}
 var badNames = []string{"", "__x", "__", "__name__", "\xff", "a\xc0\xaf", "\xed\xa0\x80", "\xf4\x90\x80\x80", "\xe2\x82", "a\x80",
 	"\xc1\xbf", "\xf5\x80\x80\x80", "\xe0\x9f\xbf", "\xf0\x8f\xbf\xbf", "ab\xc3"}
 var goodValues = []string{"", "v", "1", "value", "GET", "200", "üö", "a b c", "\U0001F600", "\xed\x9f\xbf", "\xee\x80\x80", "\xf4\x8f\xbf\xbf",
-	"\xf0\x90\x80\x80", "\xe0\xa0\x80", "\xc2\x80", "\xdf\xbf", "__v", "\x00", "\x7f"}
+	"\xf0\x90\x80\x80", "\xe0\xa0\x80", "\xc2\x80", "\xdf\xbf", "__v", "\x00", "\x7f",
+	// a correctly encoded U+FFFD (what strings.ToValidUTF8 leaves behind) is valid UTF-8
+	"\uFFFD", "a\uFFFDb", "\uFFFD\uFFFD", "x\uFFFD", "\uFFFC", "\uFFFE", "\uFFFF", "\U0010FFFD"}
 var badValues = []string{"\xff", "\xc0\x80", "\xed\xa0\x80", "\xf4\x90\x80\x80", "abc\xe2\x82", "\x80", "\xf8\x88\x80\x80\x80", "\xed\xbf\xbf", "\xc2", "a\xf0\x9f\x98"}
 
 func randBytes(r *emit.Rng, n int) string {
@@ -118,7 +120,7 @@ func randRunes(r *emit.Rng, n int) string {
 		case 2:
 			sb.WriteRune(rune(0x10000 + r.Intn(0x100000)))
 		case 3:
-			sb.WriteRune([]rune{0x7f, 0x80, 0x7ff, 0x800, 0xd7ff, 0xe000, 0xffff, 0x10000, 0x10ffff}[r.Intn(9)])
+			sb.WriteRune([]rune{0x7f, 0x80, 0x7ff, 0x800, 0xd7ff, 0xe000, 0xffff, 0x10000, 0x10ffff, 0xfffd, 0xfffd}[r.Intn(11)])
 		default:
 			sb.WriteByte(byte('a' + r.Intn(26)))
 		}
@@ -1432,7 +1434,7 @@ type exIn struct {
 
 func runeString(r *emit.Rng, n int) string {
 	var sb strings.Builder
-	pool := []rune{'a', 'z', 0xe9, 0x65e5, 0x1F600, '0', '_'}
+	pool := []rune{'a', 'z', 0xe9, 0x65e5, 0x1F600, '0', '_', 0xFFFD, 0xFFFD, 0x800, 0xFFFF, 0x10000, 0x10FFFF}
 	for i := 0; i < n; i++ {
 		sb.WriteRune(pool[r.Intn(len(pool))])
 	}
@@ -1470,6 +1472,16 @@ func genExemplar(r *emit.Rng, bad int, v float64) (exIn, []string) {
 			tot += len([]rune(k)) + len([]rune(v))
 		}
 		tags = append(tags, fmt.Sprintf("runes:%d", tot))
+		nb := 0
+		for k, v := range e.labels {
+			nb += len(k) + len(v)
+			if strings.ContainsRune(k, 0xFFFD) || strings.ContainsRune(v, 0xFFFD) {
+				tags = append(tags, "contains-U+FFFD")
+			}
+		}
+		if tot == 128 && nb > 128 {
+			tags = append(tags, "128-runes-in-more-than-128-bytes")
+		}
 	case 1:
 		// empty label set
 		tags = append(tags, "runes:0")
